@@ -13,7 +13,7 @@ LEAN_PROPS = "Dashu.Props.C14"
 LEAN_AUDIT = "Dashu.Audit.C14"
 # Tie A, typed translator: float/src/cmp.rs and rational/src/cmp.rs regenerated and proved equal to `Model/Cross/Ord.lean`
 USES_GEN = True
-GEN_PROPS = ["Dashu.Props.GenFloatCmp", "Dashu.Props.GenRatCmp", "Dashu.Props.C14Link", "Dashu.Props.C14EstNoStd", "Dashu.Props.C14I128", "Dashu.Props.C14Shl"]
+GEN_PROPS = ["Dashu.Props.GenFloatCmp", "Dashu.Props.GenRatCmp", "Dashu.Props.C14Link", "Dashu.Props.C14EstNoStd", "Dashu.Props.C14I128", "Dashu.Props.C14Shl", "Dashu.Props.C14Mul"]
 GEN_AUDIT = ["Dashu.Audit.GenFloatCmp", "Dashu.Audit.GenRatCmp", "Dashu.Audit.C14Ext"]
 
 M127 = (1 << 127) - 1
@@ -707,6 +707,12 @@ REFINED = [
     "scalings against decoded f32/f64): the model's x * 2^n / shlDigits 2^k x n is proved equal, for every word size, to C09's mirrored Shl<usize> for IBig "
     "(integer/src/shift_ops.rs, ibigShl) on the canonical representation by importing C09's ibig_shl_exact, and 'shift, then Ord / abs_cmp' to the composition of "
     "C09's shift and C05's mirrored cmp (Props/C14Shl: shl_mirrored, shl_digits_base2/pow2_mirrored, exact_step_shl_cmp_mirrored, exact_step_shl_abs_cmp_mirrored)",
+    "the `*` inside the exact steps of the rational comparisons (rational/src/cmp.rs: the cross products n1*d2 / n2*d1 of repr_cmp::<ABS> and repr_eq::<ABS>, "
+    "`rhs * &lhs.denominator` of repr_cmp_ubig/ibig::<ABS>, `significand * &lhs.denominator` then `<<=` of with_float::repr_cmp_fbig for power-of-two bases and of "
+    "NumOrd<f32/f64> for Repr): the model's x * y is proved equal, for every word size >= 4 bits, to C01's mirrored impl_ibig_mul (integer/src/mul_ops.rs, ibigMul, "
+    "refined in C01 down to the schoolbook / Karatsuba / Toom-3 word loops) on canonical representations by importing C01's i_mul_exact (a UBig denominator enters as "
+    "the Positive magnitude), and 'multiply crosswise (shift), then cmp / abs_cmp / eq' to the composition of C01's product, C09's shift and C05's mirrored cmp "
+    "(Props/C14Mul: mul_mirrored, ratio_cross_cmp_mirrored, ratio_cross_eq_mirrored, ratio_int_cmp_mirrored, mul_shl_mirrored, ratio_float_step_mirrored)",
     "the no_std (table) log2_bounds estimators of integers and rationals: base/src/math/log.rs no_std impls for u8 / u16 / u32..u128, "
     "integer/src/log.rs log2_bounds_large, rational/src/repr.rs log2_bounds — mirrored over Rat with the binary32 operations (round-to-nearest, "
     "next_down, next_up) as parameters (Model/Cross/EstNoStd.lean) and PROVED to satisfy the enclosure hypothesis for all inputs, word sizes >= 32, "
@@ -714,10 +720,11 @@ REFINED = [
     "exact arithmetic is the driver's third oracle (table_oracle_sound), run on every comparison",
 ]
 FRONTIER = [
-    "* / UBig::pow / IBig::pow on big integers inside the exact steps (shl_digits arms for base 10 and non-power-of-two bases, the 5^n factor, ratio cross "
-    "products): used at their value (* B^n); owned by C01/C04 (mirrored and proved there, not linked here by import). The `<<` of those steps (x * 2^n, shl_digits "
-    "for bases 2 and 2^k) IS linked to C09's mirrored Shl<usize> for IBig (Props/C14Shl) and the comparisons that follow to C05 (Props/C14Link); the driver still "
-    "evaluates the shift at its value (proved equal)",
+    "UBig::pow / IBig::pow and the `*` by such a power on big integers inside the exact steps (shl_digits arms for base 10 and non-power-of-two bases, the 5^n "
+    "factor, `*= UBig::from_word(B).pow(exp)` of with_float::repr_cmp_fbig): used at their value (* B^n); owned by C04/C01 (mirrored and proved there, the pow not "
+    "linked here by import). The `<<` of those steps (x * 2^n, shl_digits for bases 2 and 2^k) IS linked to C09's mirrored Shl<usize> for IBig (Props/C14Shl), the "
+    "ratio cross products and `int * denominator` products to C01's mirrored impl_ibig_mul (Props/C14Mul, word size >= 4 bits) and the comparisons that follow to "
+    "C05 (Props/C14Link); the driver still evaluates shift and product at their value (proved equal)",
     "num-modular u128::mulm inside invm (a*b mod m through udouble) used at its value; machine u128 sums of FixedMersenne are Nat sums (proved overflow-free on residues)",
     "the std-path f32 estimators (libm log2f inside u8..u128 log2_bounds) and Repr<B>::log2_bounds / digits_ub of the float crate in both paths: a PARAMETER of the "
     "theorems; the enclosure hypothesis is checked on the real code per generated input by the harness op log2encl (certified integer interval arithmetic), "
@@ -777,7 +784,7 @@ LEVEL_TEXT = ("Machine-checked Lean 4 theorems, for all inputs and for every est
 LEVEL_NOTE = ("Trusted: Lean kernel; axioms propext/Classical.choice/Quot.sound (Mathlib reals are used only to STATE log2 enclosure); the "
               "correspondence harness and generators (sampling) for the tie model<->code; the f32 estimators enter only through the enclosure "
               "hypothesis, which is tested per operand with certified integer interval arithmetic, not proved for the std path and the float estimator (proved for the no_std integer/rational estimators under F32.Ax); big-integer shifts/products/powers "
-              "and num-modular mulm are used at their specifications (frontier list); big-integer Ord/AbsOrd/AbsEq are C05's mirrored code (linked by theorem).")
+              "and num-modular mulm are used at their specifications by the driver (frontier list; the shifts and the rational cross products are proved equal to C09's / C01's mirrored code, Props/C14Shl, Props/C14Mul); big-integer Ord/AbsOrd/AbsEq are C05's mirrored code (linked by theorem).")
 THEOREMS = ["Dashu.Props.C14." + n for n in (
     "spec_lt spec_eq spec_gt float_value_rat abs_value_rat enclosure_is_log2 "
     "filter_sound coarse_sound noFilter_sound float_cmp_ubig float_cmp_ibig float_cmp_float "
@@ -794,7 +801,8 @@ THEOREMS = ["Dashu.Props.C14." + n for n in (
     "u8_encloses prim_encloses large_encloses nat_encloses rat_encloses oracle_sound_of_float_part exact_arithmetic_meets_ax "
     "table_oracle_sound num_ord_exact_table_path").split()] + ["Dashu.Props.C14I128." + n for n in (
     "wrapI128_id decode_small mul_range repr_num_ord_float_i128 repr_num_ord_float_i128_decode").split()] + ["Dashu.Props.C14Shl." + n for n in (
-    "shl_mirrored shl_digits_base2_mirrored shl_digits_pow2_mirrored exact_step_shl_cmp_mirrored exact_step_shl_abs_cmp_mirrored").split()]
+    "shl_mirrored shl_digits_base2_mirrored shl_digits_pow2_mirrored exact_step_shl_cmp_mirrored exact_step_shl_abs_cmp_mirrored").split()] + ["Dashu.Props.C14Mul." + n for n in (
+    "ubig_operand_positive mul_mirrored ratio_cross_cmp_mirrored ratio_cross_eq_mirrored ratio_int_cmp_mirrored mul_shl_mirrored ratio_float_step_mirrored").split()]
 TECHNIQUE = "Lean 4 theorems over an executable mirrored model with estimate-oracle parameters + differential correspondence model vs real code"
 JOBS = 14
 READY = True
